@@ -348,7 +348,7 @@ type c14Runner struct {
 	obs   []c14Obs
 	bad   bool // a violation made the rest of the history meaningless
 	// oracle state
-	base       uint64 // heights <= base are not owed by the pruner (start, reset, hook-deleted heights, store tail)
+	base       uint64 // heights <= base are not owed by the pruner (start, reset, hook-deleted heights, below the store tail)
 	cycles     int
 	hadFailure bool
 }
@@ -602,8 +602,8 @@ func (x *c14Runner) step(i int, e c14Event) bool {
 	head := x.store.headLocked()
 	hdrs := append([]*header.ExtendedHeader(nil), x.store.hdrs...)
 	x.store.mu.Unlock()
-	if tail > x.base {
-		x.base = tail
+	if tail > 0 && tail-1 > x.base {
+		x.base = tail - 1 // what lies below the store's tail has no header any more; the block at the tail is owed
 	}
 	if isCycle || (e.Kind == "delete" && e.Inner && len(o.Calls) > 1) {
 		x.cycles++
@@ -637,7 +637,11 @@ func (x *c14Runner) step(i int, e c14Event) bool {
 			}
 			if eh.Time().Add(time.Duration(x.hist.BlockTime)).Before(cut) && !x.pr.okSet[h] && !failedNow[h] {
 				x.pr.mu.Unlock()
-				x.violation("old-block-not-pruned", fmt.Sprintf(
+				sig := "old-block-not-pruned"
+				if h == tail {
+					sig = "old-block-not-pruned:store-tail"
+				}
+				x.violation(sig, fmt.Sprintf(
 					"event %d (%s): after the cycle height %d (time %v + block time < cutoff %v, start %d) is neither pruned nor recorded as failed; checkpoint %d",
 					i, e.Kind, h, eh.Time().Sub(c14Base), cut.Sub(c14Base), x.base, o.MemLP))
 				x.pr.mu.Lock()
